@@ -115,11 +115,10 @@ func RunContext(tokens []CtxToken) CtxVerdict {
 							v.ErrAt, v.Class = i, "incorrect-context"
 							return v
 						}
-						// a method with its own path under an implicit URL starts a new root
-						v.Nodes = append(v.Nodes, i)
-						v.Parents = append(v.Parents, -1)
-						stack = []ctxEntry{{t.Kind, t.Explicit, node}}
-						break
+						// a method with its own path leaves an implicit URL and stands where the URL stands (the root, or the body
+						// of the macro that holds the URL): the URL's context is closed and the method is resolved again
+						stack = stack[:len(stack)-1]
+						continue
 					}
 					v.Nodes = append(v.Nodes, i)
 					v.Parents = append(v.Parents, top.node)
@@ -209,10 +208,8 @@ func RunContextFiles(events []CtxEvent) CtxVerdict {
 							v.ErrAt, v.Class = i, "incorrect-context"
 							return v
 						}
-						v.Nodes = append(v.Nodes, i)
-						v.Parents = append(v.Parents, -1)
-						stack = []ctxEntryF{{ctxEntry{t.Kind, t.Explicit, node}, ev.File}}
-						break
+						stack = stack[:len(stack)-1]
+						continue
 					}
 					v.Nodes = append(v.Nodes, i)
 					v.Parents = append(v.Parents, top.node)
